@@ -176,7 +176,7 @@ pub fn sim_set_timer_max_polls(n: u32) {
 pub mod thread {
     //! Stand-in for `std::thread` (superset of what the library uses).
     use super::*;
-    pub use shuttle::thread::{current, park, spawn, Builder, JoinHandle, Thread, ThreadId};
+    pub use shuttle::thread::{current, park, spawn, JoinHandle, Thread, ThreadId};
 
     pub type Result<T> = std::thread::Result<T>;
 
@@ -245,6 +245,48 @@ pub mod thread {
             let h = real.spawn(f);
             sched_point();
             ScopedJoinHandle { inner: h }
+        }
+    }
+
+    /// `std::thread::Builder` stand-in (name and stack size are accepted and ignored for scoped
+    /// threads; `spawn` delegates to shuttle's builder).
+    #[derive(Debug, Default)]
+    pub struct Builder {
+        name: Option<String>,
+        stack_size: Option<usize>,
+    }
+    impl Builder {
+        pub fn new() -> Builder {
+            Builder::default()
+        }
+        pub fn name(mut self, name: String) -> Builder {
+            self.name = Some(name);
+            self
+        }
+        pub fn stack_size(mut self, size: usize) -> Builder {
+            self.stack_size = Some(size);
+            self
+        }
+        pub fn spawn<F, T>(self, f: F) -> std::io::Result<JoinHandle<T>>
+        where
+            F: FnOnce() -> T + Send + 'static,
+            T: Send + 'static,
+        {
+            let mut b = shuttle::thread::Builder::new();
+            if let Some(n) = self.name {
+                b = b.name(n);
+            }
+            if let Some(sz) = self.stack_size {
+                b = b.stack_size(sz);
+            }
+            b.spawn(f)
+        }
+        pub fn spawn_scoped<'scope, 'env, F, T>(self, scope: &'scope Scope<'scope, 'env>, f: F) -> std::io::Result<ScopedJoinHandle<'scope, T>>
+        where
+            F: FnOnce() -> T + Send + 'scope,
+            T: Send + 'scope,
+        {
+            Ok(scope.spawn(f))
         }
     }
 
